@@ -970,6 +970,19 @@ class Interp:
                 del frame.locals[t.id]
             elif isinstance(t, ast.Subscript):
                 ops.delitem(self, self.eval(t.value, frame), self.eval(t.slice, frame), t)
+            elif isinstance(t, ast.Attribute):
+                # del obj.attr: an instance attribute of a ghost object or of a plain (non-repo-state) Python object
+                obj = self.eval(t.value, frame)
+                if isinstance(obj, SObj):
+                    if t.attr not in obj.fields:
+                        self.raise_(AttributeError, node=t)
+                    del obj.fields[t.attr]
+                elif (id(obj), t.attr) in self.ctx.attr_overlay:
+                    del self.ctx.attr_overlay[(id(obj), t.attr)]  # an attribute this path set on a concrete object
+                elif not isinstance(obj, (type, types.ModuleType)) and hasattr(obj, "__dict__") and t.attr in vars(obj):
+                    delattr(obj, t.attr)
+                else:
+                    self.outside("del of an attribute that is not an instance attribute", s)
             else:
                 self.outside("del target", s)
 
